@@ -95,18 +95,14 @@ Proof. exact validate_deterministic. Qed.
 
 (* ---- error kinds (table translated from src/validator/mod.rs) -------------- *)
 
-(* full statement (false): kinds_distinct json_kind = true /\ kinds_distinct cbor_kind = true. *)
-Theorem C14_kinds_distinct_partial : kinds_distinct json_kind = true.
-Proof. exact kinds_distinct_json. Qed.
+(* a malformed schema, a malformed document and a non-conforming document are reported through pairwise different
+   constructors, for validate_json_from_str and for validate_cbor_from_slice (full strength since the repair of
+   kf-c14-cbor-docparse-as-cddlparsing; before it cbor_kind DocParse = cbor_kind SchemaParse = "CDDLParsing") *)
+Theorem C14_kinds_distinct : kinds_distinct json_kind = true /\ kinds_distinct cbor_kind = true.
+Proof. exact kinds_distinct_both. Qed.
 
-(* validate_cbor_from_slice reports a malformed document with the constructor of a malformed schema *)
-Theorem C14_kinds_distinct_refuted :
-  kinds_distinct cbor_kind = false /\ confused_with cbor_kind DocParse = [SchemaParse].
-Proof. exact kinds_distinct_cbor_refuted. Qed.
-
-Theorem C14_kinds_cbor_partial :
-  cbor_kind Invalid <> cbor_kind SchemaParse /\ cbor_kind Invalid <> cbor_kind DocParse.
-Proof. exact kinds_cbor_partial. Qed.
+Theorem C14_kinds_not_confused : forall c, confused_with json_kind c = [] /\ confused_with cbor_kind c = [].
+Proof. exact kinds_not_confused. Qed.
 
 Theorem C14_kinds_are_variants :
   forallb (fun c => existsb (String.eqb (json_kind c)) json_variants) all_classes = true /\
